@@ -1003,6 +1003,8 @@ func callBuiltin(caller *frame, callpos token.Pos, fn *ssa.Builtin, args []value
 			return x.n
 		case *sstr:
 			panic(engineError{"len of structural string"})
+		case symstr:
+			return strLen(x)
 		default:
 			panic(engineError{fmt.Sprintf("len: illegal operand: %T", x)})
 		}
